@@ -376,6 +376,14 @@ def _accumulate_shape(body, x):
   conds, gens = [], []
   cur = body
   while True:
+    # `if c: continue` in front of the rest is `if not c: <rest>`
+    while len(cur) >= 2 and isinstance(cur[0], ast.If) and not cur[
+        0].orelse and len(cur[0].body) == 1 and isinstance(
+            cur[0].body[0], ast.Continue):
+      t_ = cur[0].test
+      conds.append(t_.operand if isinstance(t_, ast.UnaryOp) and isinstance(
+          t_.op, ast.Not) else ast.UnaryOp(op=ast.Not(), operand=t_))
+      cur = cur[1:]
     if len(cur) != 1:
       return None
     st = cur[0]
@@ -494,3 +502,101 @@ def loops_to_comprehensions(fn, accumulate: bool = False) -> int:
       n += 1
   ast.fix_missing_locations(fn)
   return n
+
+
+def unroll_literal_loops(fn) -> int:
+  """`for k, v in {K1: V1, K2: V2}.items(): BODY` (the dict written in place
+  or held in a local used nowhere else; likewise a literal tuple / list of
+  pairs or of single items) -> `t1 = V1; t2 = V2; BODY[k:=K1, v:=t1];
+  BODY[k:=K2, v:=t2]`.  All values are still evaluated before the first body
+  runs.  The body may not break / continue / rebind the loop variables, and
+  the loop variables may not be read after the loop."""
+  if not isinstance(fn, (ast.FunctionDef, ast.AsyncFunctionDef)):
+    return 0
+  count = 0
+  for block in _blocks(fn):
+    i = 0
+    while i < len(block):
+      loop = block[i]
+      i += 1
+      if not isinstance(loop, ast.For) or loop.orelse:
+        continue
+      it = loop.iter
+      src_stmt = None
+      lit = it
+      items_call = False
+      if isinstance(it, ast.Call) and isinstance(
+          it.func, ast.Attribute) and it.func.attr == 'items' and not it.args:
+        lit, items_call = it.func.value, True
+      if isinstance(lit, ast.Name):
+        # a local holding the literal, defined just before and used only here
+        idx = block.index(loop)
+        prev = block[idx - 1] if idx > 0 else None
+        uses = [y for y in _walk_own(fn) if isinstance(y, ast.Name) and
+                y.id == lit.id]
+        if isinstance(prev, ast.Assign) and len(prev.targets) == 1 and (
+            isinstance(prev.targets[0], ast.Name)) and (
+                prev.targets[0].id == lit.id) and len(uses) == 2:
+          src_stmt, lit = prev, prev.value
+        else:
+          continue
+      pairs = None
+      if items_call and isinstance(lit, ast.Dict) and all(
+          isinstance(k, ast.Constant) for k in lit.keys) and lit.keys:
+        pairs = [(k, v) for k, v in zip(lit.keys, lit.values)]
+      elif not items_call and isinstance(lit, (ast.Tuple, ast.List)) and (
+          lit.elts) and len(lit.elts) <= 8:
+        if isinstance(loop.target, ast.Tuple) and all(
+            isinstance(e, (ast.Tuple, ast.List)) and len(e.elts) == len(
+                loop.target.elts) for e in lit.elts):
+          pairs = [tuple(e.elts) for e in lit.elts]
+        elif isinstance(loop.target, ast.Name):
+          pairs = [(e,) for e in lit.elts]
+      if pairs is None or len(pairs) > 8:
+        continue
+      tnames = [t for t in (loop.target.elts if isinstance(
+          loop.target, ast.Tuple) else [loop.target])]
+      if not all(isinstance(t, ast.Name) for t in tnames):
+        continue
+      names = [t.id for t in tnames]
+      body_nodes = [x for b in loop.body for x in ast.walk(b)]
+      if any(isinstance(x, (ast.Break, ast.Continue, ast.Return, ast.Yield,
+                            ast.YieldFrom)) or isinstance(x, _SCOPES) or (
+                                isinstance(x, ast.Name) and x.id in names and
+                                isinstance(x.ctx, (ast.Store, ast.Del)))
+             for x in body_nodes):
+        continue
+      inside = {id(z) for z in ast.walk(loop)}
+      if any(isinstance(y, ast.Name) and y.id in names and id(y) not in inside
+             and isinstance(y.ctx, ast.Load) for y in _walk_own(fn)):
+        continue
+      count += 1
+      new = []
+      bound = []
+      for j, tup in enumerate(pairs):
+        row = []
+        for nm, e in zip(names, tup):
+          if isinstance(e, (ast.Constant, ast.Name)):
+            row.append(e)
+          else:
+            t = f'{nm}__item{j}_{count}'
+            a = ast.Assign(targets=[ast.Name(id=t, ctx=ast.Store())], value=e)
+            ast.copy_location(a, loop)
+            new.append(a)
+            row.append(ast.Name(id=t, ctx=ast.Load()))
+        bound.append(row)
+      for row in bound:
+        for st in loop.body:
+          cp = copy.deepcopy(st)
+          for nm, e in zip(names, row):
+            cp = _Replace(nm, e).visit(cp)
+          new.append(cp)
+      idx = block.index(loop)
+      if src_stmt is not None:
+        block[idx - 1:idx + 1] = new
+        i = idx - 1 + len(new)
+      else:
+        block[idx:idx + 1] = new
+        i = idx + len(new)
+  ast.fix_missing_locations(fn)
+  return count
